@@ -16,6 +16,7 @@ ROOT = "/repo/nrel/hive"
 SET_FIELDS = ("fleet_ids", "on_shift_access_chargers", "memberships")
 COVERED = {
     "dispatcher/instruction_generator/assignment_ops.py:nearest_shortest_queue_ranking": "H01a",
+    "dispatcher/instruction_generator/assignment_ops.py:shortest_time_to_charge_ranking": "H01b",
     "util/h3_ops.py:nearest_entity": "H01c",
     "util/h3_ops.py:_search": "H01c",
     "dispatcher/instruction_generator/dispatcher.py:generate_instructions": "H01e",
